@@ -47,4 +47,15 @@ PROPS = {
         "assumptions": COMMON_ASSUME + ["the halted flag is process memory: restarts while halted are not part of the property and are not generated",
                                         "the driver-level clause (no block is handed over while halted) is observed at the processor boundary: ProcessBlock refuses and stores nothing"],
     },
+    "C05": {
+        "level": "exploration", "engine": "syncsim",
+        "rule": "one run = real EVMDownloader + EVMDriver + ReorgDetector(SQLite) inside a synctest bubble against a fake chain that only grows; swarm config (chunk 1..64, buffer 1..1000, poll/retry/reorg-check periods, syncer tag and detector tag in {Latest,Safe,Finalized}, restart-from-block, log density, 'tip is finalized'); ops {mine 1..9 blocks with watched/noise/removed logs, advance finalized/safe by 0..6, release one parked RPC of a component (ok / transient error / NotFound), advance the fake clock, fail the next ProcessBlock}; every delivery is checked online (strictly increasing, no watched block skipped, hash and events = chain logs in log order), then faults stop and a fair drain must deliver every watched block <= tip within a step bound. Non-trivial = >=2 event blocks delivered; distinct = distinct fingerprints of the (op kind, released component/method/mode) sequence.",
+        "tiers": {"quick": {"runs": 4000, "budget_s": 60, "selftest_seeds": 40, "selftest_procs": 9},
+                  "thorough": {"runs": 120000, "budget_s": 600, "selftest_seeds": 300, "selftest_procs": 30, "master_seeds": 3}},
+        "probes": ["event_blocks_delivered", "empty_blocks_delivered", "fault_processblock_error", "rpc_fault_1_HeaderByNumber", "rpc_fault_1_FilterLogs", "rpc_fault_2_HeaderByNumber", "drain_steps"],
+        "real": ["sync.EVMDownloader (Download loop, WaitForNewBlocks, GetEventsByBlockRange, GetLogs, GetBlockHeader)", "sync.EVMDriver (Sync, handleNewBlock, retry handler)", "reorgdetector.ReorgDetector with its SQLite database (AddBlockToTrack, ticker loop)", "db/compatibility check"],
+        "stub": ["L1 chain and its RPC (fakechain: blocks, logs, safe/finalized pointers)", "the store is a recording processor that checks each delivery online", "Go select choice / goroutine order are not seedable: the scheduler keeps at most one causal chain runnable (DESIGN section 4)"],
+        "assumptions": COMMON_ASSUME + ["no reorgs and no stale RPC views in this property (pointers only advance); C06 covers reorgs",
+                                        "anonymous (zero-topic) logs from a watched address are not generated"],
+    },
 }
